@@ -34,12 +34,12 @@ var knownEng = ev.Matcher[EngCase]{
 				}
 				t := l[i+5:]
 				t = t[:strings.Index(t, "\"")]
-				return strings.Contains(m, "CREATE TABLE `new_"+t+"`")
+				return strings.Contains(l, "[the plan rebuilds table "+t+"]")
 			}
 			if strings.HasPrefix(l, "diff.skip.drop_column is set but column ") {
 				t := strings.TrimPrefix(l, "diff.skip.drop_column is set but column \"")
 				t = t[:strings.Index(t, "\"")]
-				return strings.Contains(m, "CREATE TABLE `new_"+t+"`")
+				return strings.Contains(l, "[the plan rebuilds table "+t+"]")
 			}
 		}
 		return false
